@@ -169,8 +169,15 @@ def detect(base, cur_inv, cur_txt):
                 accept([(cv, bv)], 'variant of %s at the same position with the same payload' % op)
             if len(bf) != len(cf):
                 continue
+            def unwrapped(t_):
+                # a field whose type became a new single-field wrapper struct around its old type (seen through by the analysis)
+                w_ = cur_inv['adts'].get(t_)
+                if w_ and t_ not in b_adts and w_['kind'] == 'struct' and len(w_['variants']) == 1 and len(w_['variants'][0][1]) == 1:
+                    return w_['variants'][0][1][0][1]
+                return t_
             for (bn, bt), (cn, ct) in zip(bf, cf):
-                if bn != cn and _sub(_subpaths(ct, paths), list(ren.items())) == bt and bn not in [x for x, _ in cf]:
+                ctn = _sub(_subpaths(ct, paths), list(ren.items()))
+                if bn != cn and (ctn == bt or _sub(_subpaths(unwrapped(ct), paths), list(ren.items())) == bt) and bn not in [x for x, _ in cf]:
                     if cn in vocab or not IDENT.fullmatch(cn) or not IDENT.fullmatch(bn):      # (tuple field <-> named field: `0` is not an identifier)
                         # the new name already means something elsewhere: rename this field only where it is used as a field of this type
                         structured.append((p, cn, bn))
